@@ -1300,7 +1300,7 @@ def explore(rep, br, tier, seed):
     # check.py starts the search only when no violation at all was recorded; the known finding is always
     # recorded here, so the search for a NEW failing input is started from here
     if (br is not None and not br.ok) or rep.disagreements:
-        if not any(v["signature"] != KNOWN_END for v in rep.violations):
+        if not any(v["signature"] not in (KNOWN_END, KNOWN_END_CONT) for v in rep.violations):
             C.log("search: obligations or correspondence broken; looking for a concrete failing input (model-free)")
             search(rep, br, tier, seed)
 
@@ -1308,19 +1308,26 @@ def explore(rep, br, tier, seed):
 KNOWN_END = "end-inside-repeat"
 
 
+KNOWN_END_CONT = "end-followed-by-continuation"
+
+
 def probe_end_colon(rep):
-    """reported candidate, outside the generated domain: '.end' followed by a line that starts with ':' or '=' is read as
-    the label '.end:' / the definition '.end = ...' (a statement may continue on the next line), so the tail is NOT discarded"""
-    res = []
-    for sp, tail in ((".end", ":::\n"), (".end", "= 5\n.word 7\n"), ("end", "^Rabc\n")):
-        a = impl.assemble([("t.mac", ".word 1\n" + sp + "\n" + tail)])
-        b = impl.assemble([("t.mac", ".word 1\n")])
+    """known finding: '.end' followed by a line whose first significant character is ':' (any spelling), or '=' / an
+    infix operator (dotless 'end'), is read as the label '.end:' / the definition 'end = ...' / an expression -- a
+    statement may continue on the next line -- so the tail is NOT discarded.  Only these shapes carry the signature."""
+    ref_text = ".word 1\n"
+    b = impl.assemble([("t.mac", ref_text)])
+    # ('.end' / '= 5' does NOT reproduce: only the dotless spelling is read as the definition 'end = 5')
+    for sp, tail in ((".end", ":::\n"), ("end", "= 5\n.word 7\n"), ("end", "^Rabc\n")):
+        text = ".word 1\n" + sp + "\n" + tail
+        a = impl.assemble([("t.mac", text)])
         rep.add_eval(2)
-        res.append(view(a) != view(b))
-    rep.count("probe:end-then-colon-or-equals:" + ("differs" if any(res) else "same"))
-    if any(res):
-        rep.notes.append("candidate (not judged): '.word 1 / .end / :::' and '.word 1 / .end / = 5 / .word 7' (also 'end / ^Rabc') do not assemble to what '.word 1' "
-                         "assembles to: the next line's ':' / '=' / infix operator makes the directive a label / a definition / an expression")
+        differs = view(a) != view(b)
+        rep.count("probe:end-then-%s:%s" % ({":": "colon", "=": "equals", "^": "operator"}[tail[0]], "differs" if differs else "same"))
+        if differs:
+            rep.violate(KNOWN_END_CONT, "text after '.end' is not discarded when its first significant line starts with ':' (any spelling), or with '=' or an operator after the dotless 'end'",
+                        {"files": [["t.mac", text]], "files_transformed": [["t.mac", ref_text]], "transformation": "cut at .end"},
+                        impl=brief(a), impl_transformed=brief(b))
 
 
 def probe_dot_assign(rep):
@@ -1337,7 +1344,7 @@ def probe_dot_assign(rep):
 
 
 def search_without_model(rep, tier, seed):
-    if not any(v["signature"] != KNOWN_END for v in rep.violations):
+    if not any(v["signature"] not in (KNOWN_END, KNOWN_END_CONT) for v in rep.violations):
         search(rep, None, tier, seed)
 
 
@@ -1351,7 +1358,7 @@ def search(rep, br, tier, seed):
         exports_family(rep, rng, 200)
         insert_dirs_family(rep, rng, 150, with_model=False)
         rich_family(rep, rng, 80)
-        if any(v["signature"] != KNOWN_END for v in rep.violations):
+        if any(v["signature"] not in (KNOWN_END, KNOWN_END_CONT) for v in rep.violations):
             return
 
 
